@@ -8,7 +8,7 @@ use vcore::palette::{self, nearest, xterm240, Rgb};
 use vcore::rt::{self, Acc, Args, Report};
 use vcore::sgr::{ansi_index, ANSI_COLORS};
 
-const RULE: &str = "Inputs: RGB values from a 18^3 lattice, every candidate colour +-1 per channel, midpoints (+-1) between pairs of candidates, seeded random values (quick); ALL 2^24 RGB values (thorough). Targets: the 240 fixed colours of the 256-colour palette, and the 16-colour palette under VGA, Windows-10 and 22 more palettes (incl. entries one channel step apart) (all-equal, duplicated entries, extremes only, 8 palettes clustered within 16 units of one cube corner each, an 8-colour palette doubled, halves swapped, 4 doubled palettes with sum-preserving transfers inside the bright half, 3 seeded random). All 256 indices and 16 palette colours for the remaining conversions. Oracle: brute-force search in i64 with the red-mean weighted distance, lowest index on ties; table by formula. Non-trivial = the input is not itself a candidate (distance > 0), distinct by (input, palette); ties are counted as a class.";
+const RULE: &str = "Inputs: RGB values from a 18^3 lattice, every candidate colour +-1 per channel, midpoints (+-1) between pairs of candidates, seeded random values (quick); ALL 2^24 RGB values (thorough). Targets: the 240 fixed colours of the 256-colour palette, and the 16-colour palette under VGA, Windows-10 and 22 more palettes (incl. entries one channel step apart) (all-equal, duplicated entries, extremes only, 8 palettes clustered within 16 units of one cube corner each, an 8-colour palette doubled, halves swapped, 4 doubled palettes with sum-preserving transfers inside the bright half, 3 seeded random). All 256 indices and 16 palette colours for the remaining conversions. Oracle: brute-force search in i64 with the published red-mean weighted distance ((2 + rm/256) dR^2 + 4 dG^2 + (2 + (255-rm)/256) dB^2, exact in integers), lowest index on ties; table by formula. Non-trivial = the input is not itself a candidate (distance > 0), distinct by (input, palette); ties are counted as a class.";
 
 fn to_rgb(c: Rgb) -> RgbColor {
     RgbColor(c.0, c.1, c.2)
@@ -250,7 +250,7 @@ fn neighbours(c: Rgb) -> Vec<Rgb> {
 fn run(args: &Args, rep: &mut Report) {
     let tier = args.tier;
     let cx = Ctx { xterm: palette::xterm_candidates(), palettes: palettes(args.seed) };
-    rep.assume("the weights of the red-mean metric ((1024+rsum), 1024, (1534-rsum)) are taken as part of the specification");
+    rep.assume("the red-mean weighted distance is the published one (compuphase): dC^2 = (2 + rm/256) dR^2 + 4 dG^2 + (2 + (255-rm)/256) dB^2 with rm the mean of the two red values, evaluated exactly in integers (x 512)");
 
     let mut acc = Acc::new();
     match rt::guarded(|| check_tables(&cx)) {
